@@ -101,35 +101,47 @@ def render_expr(e):
     raise ValueError(k)
 
 
+def _eval_block(b, T, env, decl):
+    rows = []
+    prev = None
+    for iota, s in enumerate(b["specs"]):
+        if s["form"] == "c":
+            if prev is None:
+                raise ValueError("carry without a previous spec")
+            ty, exprs = prev
+        else:
+            ty = s["ty"] if s["form"] == "t" else s.get("ety")
+            exprs = s["exprs"]
+            prev = (ty, exprs)
+        if len(exprs) != len(s["names"]):
+            raise ValueError("arity")
+        vals = [eval_expr(e, iota, env) for e in exprs]
+        for n, v in zip(s["names"], vals):
+            if n != "_":
+                env[n] = v
+                if ty == T and decl is not None:
+                    decl.append((n, v))
+        rows.append((s, ty, vals))
+    return rows
+
+
 def evaluate(en):
-    """-> (list of blocks, each a list of (spec, gotype, [vals])), decl [(name, val)] of T in source order"""
+    """-> (list of blocks, each a list of (spec, gotype, [vals])), decl [(name, val)] of T in source order
+    (package-level blocks only; `(T)`-spelled types count as T, which they are)"""
     out = []
     decl = []
     env = {}
     for f in en["files"]:
         for b in f["blocks"]:
-            rows = []
-            prev = None
-            for iota, s in enumerate(b["specs"]):
-                if s["form"] == "c":
-                    if prev is None:
-                        raise ValueError("carry without a previous spec")
-                    ty, exprs = prev
-                else:
-                    ty = s["ty"] if s["form"] == "t" else s.get("ety")
-                    exprs = s["exprs"]
-                    prev = (ty, exprs)
-                if len(exprs) != len(s["names"]):
-                    raise ValueError("arity")
-                vals = [eval_expr(e, iota, env) for e in exprs]
-                for n, v in zip(s["names"], vals):
-                    if n != "_":
-                        env[n] = v
-                        if ty == en["T"]:
-                            decl.append((n, v))
-                rows.append((s, ty, vals))
-            out.append(rows)
+            out.append(_eval_block(b, en["T"], env, decl))
     return out, decl
+
+
+def evaluate_locals(en):
+    """the const blocks inside function bodies: same row format, they declare nothing at package level"""
+    _, decl = evaluate(en)
+    base = dict(decl)
+    return [_eval_block(b, en["T"], dict(base), None) for b in en.get("locals", [])]
 
 
 def classify(en):
@@ -368,6 +380,86 @@ class EnumGen:
         typefile = rng.randrange(len(files)) if len(files) > 1 and rng.random() < 0.4 else 0
         return {"T": T, "kind": kind, "files": files, "aux": aux, "typefile": typefile}
 
+    def variant(self, kind_of, kinds=None):
+        """a WF enum plus one of the shapes makeStr treats specially:
+        local-harm   a const declaration of type T inside a function body
+        local-ok     const declarations of other types inside a function body
+        nonident-carry   `W time.Duration = 5` followed by an empty spec while T is remembered
+        nonident-paren   `X (T) = v`: a constant of T spelled with a parenthesised type
+        nonident-ok      a `time.Duration` spec that is not followed by an empty spec / sits in its own block"""
+        rng = self.rng
+        for _ in range(200):
+            en = self.enum("wf", kinds=kinds)
+            rows, decl = evaluate(en)
+            T = en["T"]
+            used = set(n for f in en["files"] for b in f["blocks"] for s_ in b["specs"] for n in s_["names"])
+
+            def fresh(prefix):
+                for _ in range(100):
+                    n = prefix + rng.choice(SUFFIXES) + str(rng.randint(0, 99))
+                    if n not in used and n not in GO_RESERVED:
+                        used.add(n)
+                        return n
+                raise ValueError("names")
+            lo, hi = krange(en["kind"])
+            vs = set(v for _, v in decl)
+            newv = [v for v in [max(vs) + 1, max(vs) + 2, min(vs) - 1, 1, 2, 3, 5, 9] if lo <= v <= hi and v not in vs]
+            # blocks whose last spec is governed by T (so that T is the remembered type at the end of the block)
+            tails = [(f, b) for f in en["files"] for b, r in zip(f["blocks"], [r for r in rows][sum(len(g["blocks"]) for g in en["files"][:en["files"].index(f)]):])
+                     if r and r[-1][1] == T]
+            if kind_of == "local-harm":
+                if not newv:
+                    continue
+                blk = {"paren": rng.random() < 0.5, "specs": [{"names": [fresh("tmp")], "form": "t", "ty": T, "exprs": [("lit", newv[0])]}]}
+                if rng.random() < 0.4 and len(newv) > 1:
+                    blk = {"paren": True, "specs": [{"names": [fresh("tmp")], "form": "t", "ty": T, "exprs": [("lin", 1, newv[0])]},
+                                                    {"names": [fresh("tmp")], "form": "c"}]}
+                en["locals"] = [blk]
+            elif kind_of == "local-ok":
+                en["aux"] = True
+                en["locals"] = [{"paren": True, "specs": [{"names": [fresh("k")], "form": "e", "ety": None, "exprs": [("lit", 3)]},
+                                                           {"names": [fresh("k")], "form": "c"},
+                                                           {"names": [fresh("aux")], "form": "t", "ty": "Aux", "exprs": [("iota",)]},
+                                                           {"names": [fresh("aux")], "form": "c"}]},
+                                {"paren": False, "specs": [{"names": [fresh("d")], "form": "t", "ty": "time.Duration", "nonident": True, "exprs": [("lit", 7)]}]}]
+            elif kind_of == "nonident-carry":
+                if not tails:
+                    continue
+                f, b = rng.choice(tails)
+                b["paren"] = True
+                b["specs"] += [{"names": [fresh("Wait")], "form": "t", "ty": "time.Duration", "nonident": True, "exprs": [("lit", rng.randint(1, 99))]},
+                               {"names": [fresh("Later")], "form": "c"}]
+            elif kind_of == "nonident-paren":
+                if not newv:
+                    continue
+                f = rng.choice(en["files"])
+                b = rng.choice(f["blocks"])
+                b["paren"] = True
+                b["specs"].append({"names": [fresh(T if rng.random() < 0.5 else "X")], "form": "t", "ty": T, "nonident": True, "exprs": [("lit", newv[0])]})
+            elif kind_of == "nonident-ok":
+                f = rng.choice(en["files"])
+                if rng.random() < 0.5:
+                    b = rng.choice(f["blocks"])
+                    b["paren"] = True
+                    b["specs"].append({"names": [fresh("Wait")], "form": "t", "ty": "time.Duration", "nonident": True, "exprs": [("lit", 5)]})
+                    if rng.random() < 0.5 and newv:
+                        b["specs"].append({"names": [fresh(T)], "form": "t", "ty": T, "exprs": [("lit", newv[0])]})
+                else:
+                    f["blocks"].append({"paren": True, "specs": [
+                        {"names": [fresh("Wait")], "form": "t", "ty": "time.Duration", "nonident": True, "exprs": [("lit", 1)]},
+                        {"names": [fresh("Wait")], "form": "c"}]})
+            else:
+                raise ValueError(kind_of)
+            try:
+                evaluate(en)
+                evaluate_locals(en)
+            except (ValueError, KeyError):
+                continue
+            en["feature"] = kind_of
+            en["shape"] = kind_of
+            return en
+        raise core.InfraError("enum generator: cannot build a %s variant" % kind_of)
+
     def _run(self, rng, T, nxt, first, n, feature):
         """`A T = <first>` followed by n-1 empty specs (some `_`)"""
         specs = []
@@ -549,7 +641,10 @@ def render_spec(s):
         return names
     ex = ", ".join(render_expr(e) for e in s["exprs"])
     if s["form"] == "t":
-        return "%s %s = %s" % (names, s["ty"], ex)
+        ty = s["ty"]
+        if s.get("nonident") and "." not in ty:
+            ty = "(%s)" % ty                      # a parenthesised type: not an *ast.Ident
+        return "%s %s = %s" % (names, ty, ex)
     return "%s = %s" % (names, ex)
 
 
@@ -559,16 +654,26 @@ def render_block(b):
     return "const (\n" + "".join("\t" + render_spec(s) + "\n" for s in b["specs"]) + ")\n"
 
 
+def _uses_time(blocks):
+    return any(s.get("ty") == "time.Duration" for b in blocks for s in b["specs"])
+
+
 def render_files(en, pkg="cs"):
     out = {}
     for i, f in enumerate(en["files"]):
         body = ["package %s\n" % pkg]
+        locs = en.get("locals", []) if i == 0 else []
+        if _uses_time(f["blocks"]) or _uses_time(locs):
+            body.append('import "time"\n')
         if i == en.get("typefile", 0):
             body.append("type %s %s\n" % (en["T"], en["kind"]))
             if en.get("aux"):
                 body.append("type Aux int\n")
         for b in f["blocks"]:
             body.append(render_block(b))
+        for k, b in enumerate(locs):
+            inner = render_block(dict(b, paren=b.get("paren", True))).replace("\n", "\n\t").rstrip("\t")
+            body.append("func verifLocal%d() {\n\t%s}\n" % (k, inner))
         out[f["name"]] = "\n".join(body)
     return out
 
@@ -587,22 +692,29 @@ def render_explicit(en, decl, pkg="cs", order=None):
 # S-expressions for the Lean driver
 # ------------------------------------------------------------------------------------------------
 
-def input_sexp(en):
-    rows, _ = evaluate(en)
-    s, b = KINDS[en["kind"]]
+def _rows_sexp(rows_list):
     blocks = []
-    for blk in rows:
+    for blk in rows_list:
         specs = []
         for sp, _, vals in blk:
             if sp["form"] == "t":
-                mid = ["t", Q(sp["ty"])]
+                mid = ["t", Q(sp["ty"])] + (["q"] if sp.get("nonident") else [])
             elif sp["form"] == "c":
                 mid = ["c"]
             else:
                 mid = ["e", Q(sp["ety"]) if sp.get("ety") else "-"]
             specs.append(["s", ["n"] + [Q(n) for n in sp["names"]], mid, ["v"] + [str(v) for v in vals]])
         blocks.append(["b"] + specs)
-    return [["type", Q(en["T"]), "s" if s else "u", str(b)], ["blocks"] + blocks]
+    return blocks
+
+
+def input_sexp(en):
+    rows, _ = evaluate(en)
+    s, b = KINDS[en["kind"]]
+    out = [["type", Q(en["T"]), "s" if s else "u", str(b)], ["blocks"] + _rows_sexp(rows)]
+    if en.get("locals"):
+        out.append(["locals"] + _rows_sexp(evaluate_locals(en)))
+    return out
 
 
 def case_sexp(cid, area, en, extra):
@@ -1059,6 +1171,8 @@ def features_of(en):
         fs.add("multi-block")
     if len(en["files"]) > 1:
         fs.add("multi-file")
+    if en.get("locals"):
+        fs.add("function-local-const")
     if en.get("typefile", 0) != 0:
         fs.add("type-declared-after-constants-file")
     T = en["T"]
@@ -1077,6 +1191,8 @@ def features_of(en):
                     fs.add("untyped-reset" if not s.get("ety") else "typed-expr")
                 if s["form"] == "t" and s["ty"] != T:
                     fs.add("other-type")
+                if s.get("nonident"):
+                    fs.add("non-identifier-type")
                 for e in s.get("exprs", []):
                     fs.add("expr:" + e[0])
                 if s.get("ty") == T or s["form"] == "c":
@@ -1092,6 +1208,7 @@ def features_of(en):
 
 C01_FLAGS = ["bit", "json", "text", "sql", "gorm"]
 LISTED_KINDS = ["int", "uint", "int32", "uint32"]        # what ListTypes (-file / -type=*) keeps
+C01_VARIANTS = ["local-harm", "local-ok", "nonident-carry", "nonident-paren", "nonident-ok"]
 C01_HEADER = re.compile(r'^// Code generated by "shoot [^"\n]*"; DO NOT EDIT\.')
 
 
@@ -1107,11 +1224,11 @@ def c01_case(ctx, g, cid, shape, feature, flags, mode):
         kinds = LISTED_KINDS
     if feature and feature.startswith("kind:") and kinds and feature[5:] not in kinds:
         kinds = None
-    ens = [g.enum(shape, feature, kinds=kinds)]
+    ens = [g.variant(shape, kinds=kinds) if shape in C01_VARIANTS else g.enum(shape, feature, kinds=kinds)]
     if mode == "list" or (mode in ("file", "star") and rng.random() < 0.4):
         for _ in range(60):
             T2 = rng.choice([t for t in TYPE_NAMES if t != ens[0]["T"] and t.lower() != ens[0]["T"].lower()])
-            e2 = g.enum(rng.choice(["wf", "wf", "wf", shape]), None, kinds=kinds, T=T2)
+            e2 = g.enum(rng.choice(["wf", "wf", "wf", shape if shape not in C01_VARIANTS else "wf"]), None, kinds=kinds, T=T2)
             if not (set(_all_names(e2)) & set(_all_names(ens[0]))):
                 ens.append(e2)
                 break
@@ -1123,6 +1240,8 @@ def c01_case(ctx, g, cid, shape, feature, flags, mode):
         body = ["package cs\n"]
         if mode == "star":
             body.append("//go:generate shoot %s\n" % " ".join(["enum"] + ["-" + f for f in flags] + ["-type=*"]))
+        if any(_uses_time([b for f in e["files"] for b in f["blocks"]] + e.get("locals", [])) for e in ens):
+            body.append('import "time"\n')
         for e in ens:
             body.append("type %s %s\n" % (e["T"], e["kind"]))
         if aux:
@@ -1132,19 +1251,29 @@ def c01_case(ctx, g, cid, shape, feature, flags, mode):
                 for b in f["blocks"]:
                     body.append(render_block(b))
                     blocks_in_order.append((e, b))
+        nloc = 0
+        for e in ens:
+            for b in e.get("locals", []):
+                inner = render_block(dict(b, paren=b.get("paren", True))).replace("\n", "\n\t").rstrip("\t")
+                body.append("func verifLocal%d() {\n\t%s}\n" % (nloc, inner))
+                nloc += 1
         files["a.go"] = "\n".join(body)
     else:
         for k, e in enumerate(ens):
             e = dict(e, aux=(aux and k == 0))
             for fn, src in render_files(e).items():
-                files[("z%d_" % k if k else "") + fn] = src
+                files[("z%d_" % k if k else "") + fn] = src.replace("func verifLocal", "func verifLocal%d_" % k)
             for f in e["files"]:
                 for b in f["blocks"]:
                     blocks_in_order.append((e, b))
     # one evaluation over the whole package (the blocks of the enums are independent of each other)
     blocks_sexp = []
+    locals_sexp = []
     for e in ens:
-        blocks_sexp += input_sexp(e)[1][1:]
+        isx = input_sexp(e)
+        blocks_sexp += isx[1][1:]
+        if len(isx) > 2:
+            locals_sexp += isx[2][1:]
     names = [e["T"] for e in ens]
     if mode == "type":
         sel, named = ["-type=" + names[0]], names[:1]
@@ -1158,7 +1287,8 @@ def c01_case(ctx, g, cid, shape, feature, flags, mode):
     if aux:
         types.append([Q("Aux"), "int"])
     args = ["enum"] + ["-" + f for f in flags] + sel
-    sexp = dump(["case", cid, "c01enum", ["flags"] + flags, ["mode", mode], ["types"] + types, ["blocks"] + blocks_sexp])
+    sexp = dump(["case", cid, "c01enum", ["flags"] + flags, ["mode", mode], ["types"] + types, ["blocks"] + blocks_sexp]
+                + ([["locals"] + locals_sexp] if locals_sexp else []))
     return {"id": cid, "area": "enum", "files": files, "runs": [{"args": args}], "oracle": {}, "sexp": sexp, "key": sexp,
             "cmd": "shoot " + " ".join(args), "mode": mode, "flags": ["-" + f for f in flags], "shape": shape,
             "feature": feature or "random", "kinds": [e["kind"] for e in ens]}
@@ -1203,6 +1333,7 @@ def c01_leg(ctx, res, n):
             plan.append(("wf", [None, "carried", "multi", "shift"][r], fl, modes[(k + r) % 4]))
     # 2. every region shape and every underlying kind / iota form, in every mode
     shaped = ([("neg", None), ("big", None), ("dupval", None), ("dupname", None), ("typedexpr", None), ("empty", None)] +
+              [(v, None) for v in C01_VARIANTS] +
               [("wf", "kind:" + k) for k in KIND_NAMES] +
               [("wf", f) for f in ["iota", "offset", "shift", "explicit", "multi", "lin", "hex", "carried", "placeholder",
                                    "multi-block", "multi-file", "accidental-prefix", "distractor"]])
@@ -1218,7 +1349,7 @@ def c01_leg(ctx, res, n):
     # 3. random
     while len(plan) < n:
         r = rng.random()
-        sh = "wf" if r < 0.8 else rng.choice(["neg", "big", "dupval", "dupname", "typedexpr"])
+        sh = "wf" if r < 0.8 else rng.choice(["neg", "big", "dupval", "dupname", "typedexpr"] + C01_VARIANTS)
         fl = [f for f in C01_FLAGS if rng.random() < (0.15 if f == "bit" else 0.4)]
         if "gorm" in fl and "sql" not in fl and rng.random() < 0.85:
             fl.append("sql")
